@@ -134,6 +134,7 @@ func (p *c17) Describe(i int) interface{} {
 func newEnv(loader stick.Loader) *stick.Env {
 	env := stick.New(loader)
 	(&mon.Recorder{}).Register(env)
+	c17TwigNames(env)
 	return env
 }
 
@@ -337,6 +338,19 @@ var c17Carriers = []func(e gen.Expr) gen.Node{
 		return pr(&gen.EFilter{X: str("v"), Name: "wrap", Args: []gen.Expr{e, num(2)}})
 	},
 	func(e gen.Expr) gen.Node { return pr(&gen.EFilter{X: e, Name: "wrap", Args: []gen.Expr{num(2)}}) },
+	// filters and tests the application registered under names that Twig has too: a failing subject or argument
+	// fails whatever the callback is called
+	func(e gen.Expr) gen.Node { return pr(&gen.EFilter{X: e, Name: "default", Args: []gen.Expr{str("d")}}) },
+	func(e gen.Expr) gen.Node { return pr(&gen.EFilter{X: e, Name: "default"}) },
+	func(e gen.Expr) gen.Node { return pr(&gen.EFilter{X: e, Name: "raw"}) },
+	func(e gen.Expr) gen.Node {
+		return pr(&gen.EFilter{X: &gen.EFilter{X: e, Name: "escape"}, Name: "length"})
+	},
+	func(e gen.Expr) gen.Node { return pr(&gen.ETest{X: e, Test: "defined"}) },
+	func(e gen.Expr) gen.Node { return pr(&gen.ETest{X: e, Test: "empty"}) },
+	func(e gen.Expr) gen.Node {
+		return pr(&gen.ETern{C: &gen.ETest{X: e, Test: "defined"}, A: str("y"), B: str("n")})
+	},
 	func(e gen.Expr) gen.Node { return pr(&gen.ETest{X: num(4), Test: "eq", Args: []gen.Expr{e}}) },
 	func(e gen.Expr) gen.Node { return pr(&gen.ETest{X: e, Test: "pos"}) },
 	func(e gen.Expr) gen.Node { return pr(&gen.EArr{Els: []gen.Expr{e, num(2)}}) },
@@ -564,6 +578,7 @@ func (p *c17) Run(i int) (res fw.Result) {
 				env := stick.New(&stick.MemoryLoader{Templates: src2})
 				rec := &mon.Recorder{}
 				rec.Register(env)
+				c17TwigNames(env)
 				w := &mon.FaultWriter{}
 				r := runExec(env, safe, main, w, ctx)
 				res.Evals++
@@ -614,4 +629,15 @@ func (p *c17) Assumptions() []string {
 
 func (p *c17) Floors(tier string) map[string]int64 {
 	return map[string]int64{"writer_faults": 1000, "loader_faults": 1000, "runtime_error_points_executed": 500, "distinct_nontrivial": 50}
+}
+
+// c17TwigNames registers plain callbacks under names that Twig's own filters and tests have (the core environment
+// has none of them): what a callback is called gives it no special powers.
+func c17TwigNames(env *stick.Env) {
+	for _, n := range []string{"default", "raw", "escape", "e", "length", "first", "upper", "json_encode"} {
+		env.Filters[n] = func(ctx stick.Context, v stick.Value, args ...stick.Value) stick.Value { return stick.CoerceString(v) }
+	}
+	for _, n := range []string{"defined", "empty", "null", "none", "iterable", "same"} {
+		env.Tests[n] = func(ctx stick.Context, v stick.Value, args ...stick.Value) bool { return v != nil }
+	}
 }
